@@ -267,3 +267,5 @@ V("C10", "collated_stride_is_ndevice", "violation", (DAEF, "                out.
 V("C10", "benign_collated_progression", "silent", (DAEF, "                out.append(np.arange(idx_begin + idx, idx_end, nvar))", "                out.append(idx_begin + idx + nvar * np.arange(ndevice))"))
 V("C06", "switch_action_first_model_only", "violation", (SYSTEM, "            instance.switch_action(self.dae.t)", "            instance.switch_action(self.dae.t)\n            break"), rule="C06.universal")
 V("C13", "psse_first_load_only", "violation", ("andes/io/psse.py", "        out['PQ'].append(param)\n", "        out['PQ'].append(param)\n        break\n"), rule="C13.universal")
+V("C15", "replay_pointer_not_resynced", "violation", (TDS, "        if self.data_csv is not None:\n            self.k_csv = 0\n", ""), rule="C15.replay")
+V("C15", "benign_replay_peek", "silent", (TDS, "        if self.data_csv is not None:\n            self.k_csv = 0\n", "        if self.data_csv is not None:\n            self.k_csv = self.k_csv - 1\n"))
